@@ -354,7 +354,7 @@ pub fn check_bytes(input: &[u8]) -> Result<(bool, u64, u64), String> {
         other.push(b'x');
         let to = tokenize::<[u8]>(&other)?;
         let r = subject(|| -> Result<(), String> {
-            let mut cfg = similar::TextDiff::configure();
+            let cfg = similar::TextDiff::configure();
             let k = if cfg!(feature = "unicode") { 5 } else { 3 };
             // Eulerian circuit of the complete digraph with loops on k constructors
             let mut circuit = vec![0usize];
